@@ -19,6 +19,7 @@ import (
 	"github.com/containerd/stargz-snapshotter/internal/verifutil"
 	"github.com/containerd/stargz-snapshotter/metadata"
 	digest "github.com/opencontainers/go-digest"
+	bolt "go.etcd.io/bbolt"
 )
 
 type verifC01VR struct{ vr *fsreader.VerifiableReader }
@@ -50,6 +51,34 @@ func (a *verifC01VR) GenID(id uint32, off, size int64) string {
 }
 func (a *verifC01VR) Close() error { return a.vr.Close() }
 
+// verifC01Store is newStore of reader_test.go, except that the database file is also removed when
+// the (altered) blob is refused.
+func verifC01Store(sr *io.SectionReader, opts ...metadata.Option) (metadata.Reader, error) {
+	f, err := os.CreateTemp("", "verifc01db")
+	if err != nil {
+		return nil, err
+	}
+	f.Close()
+	db, err := bolt.Open(f.Name(), 0600, nil)
+	if err != nil {
+		os.Remove(f.Name())
+		return nil, err
+	}
+	r, err := NewReader(db, sr, opts...)
+	if err != nil {
+		db.Close()
+		os.Remove(f.Name())
+		return nil, err
+	}
+	return &readCloser{
+		Reader: r,
+		closeFn: func() error {
+			db.Close()
+			return os.Remove(f.Name())
+		},
+	}, nil
+}
+
 func TestVerifC01DB(t *testing.T) {
 	rnd := verifutil.NewRand(verifutil.Seed() + 4242)
 	out := verifutil.OpenOut()
@@ -57,7 +86,7 @@ func TestVerifC01DB(t *testing.T) {
 	cfg := verifc01.Config{
 		Stack: verifc01.Stack{
 			Name:  "db",
-			Store: newStore,
+			Store: verifC01Store,
 			NewReader: func(mr metadata.Reader, c cache.BlobCache) (verifc01.VR, error) {
 				vr, err := fsreader.NewReader(mr, c, digest.FromString("verif-c01"))
 				if err != nil {
